@@ -6,6 +6,7 @@ package main
 import (
 	"go/constant"
 	"go/token"
+	"go/types"
 	"math/big"
 	"sort"
 	"strings"
@@ -14,10 +15,11 @@ import (
 )
 
 type Mono struct {
-	Coef *big.Rat
-	Syms []string
-	OK   bool
-	Why  string
+	Coef    *big.Rat
+	Syms    []string
+	OK      bool
+	Why     string
+	Floored bool // an integer division was applied to a symbolic operand (result truncated)
 }
 
 func monoConst(r *big.Rat) Mono { return Mono{Coef: r, OK: true} }
@@ -28,14 +30,23 @@ func (m Mono) mul(o Mono) Mono {
 	}
 	s := append(append([]string{}, m.Syms...), o.Syms...)
 	sort.Strings(s)
-	return Mono{Coef: new(big.Rat).Mul(m.Coef, o.Coef), Syms: s, OK: true}
+	return Mono{Coef: new(big.Rat).Mul(m.Coef, o.Coef), Syms: s, OK: true, Floored: m.Floored || o.Floored}
 }
 
 func (m Mono) div(o Mono) Mono {
 	if !m.OK || !o.OK || len(o.Syms) > 0 || o.Coef.Sign() == 0 {
 		return Mono{Why: "division by a non-constant"}
 	}
-	return Mono{Coef: new(big.Rat).Quo(m.Coef, o.Coef), Syms: m.Syms, OK: true}
+	return Mono{Coef: new(big.Rat).Quo(m.Coef, o.Coef), Syms: m.Syms, OK: true, Floored: m.Floored}
+}
+
+// floorDiv: integer division (truncating) — exact only when the dividend is a constant.
+func (m Mono) floorDiv(o Mono) Mono {
+	r := m.div(o)
+	if r.OK && len(m.Syms) > 0 {
+		r.Floored = true
+	}
+	return r
 }
 
 func (m Mono) String() string {
@@ -125,6 +136,9 @@ func (n *Normer) eval(v ssa.Value, d int) Mono {
 		case token.MUL:
 			return n.eval(x.X, d+1).mul(n.eval(x.Y, d+1))
 		case token.QUO:
+			if bt, ok := x.Type().Underlying().(*types.Basic); ok && bt.Info()&types.IsInteger != 0 {
+				return n.eval(x.X, d+1).floorDiv(n.eval(x.Y, d+1))
+			}
 			return n.eval(x.X, d+1).div(n.eval(x.Y, d+1))
 		}
 	case *ssa.UnOp:
@@ -159,6 +173,9 @@ func (n *Normer) eval(v ssa.Value, d int) Mono {
 				}
 			case "Quo", "QuoRaw", "QuoInt", "QuoInt64":
 				if len(args) == 2 {
+					if cal.Recv == "Int" || cal.Recv == "Uint" {
+						return n.eval(args[0], d+1).floorDiv(n.eval(args[1], d+1))
+					}
 					return n.eval(args[0], d+1).div(n.eval(args[1], d+1))
 				}
 			}
@@ -200,6 +217,18 @@ func (n *Normer) RelOf(cond ssa.Value) Rel {
 
 // Canon orients the relation so that symbol `left` is on the left side and returns
 // the operator and the ratio R.coef/L.coef, i.e.  left  op  ratio·right.
+// FloorExact reports whether truncating divisions inside the relation leave it equivalent to the
+// exact rational comparison (for integer operands): L > floor(R), L <= floor(R), floor(L) < R, floor(L) >= R are exact.
+func (r Rel) FloorExact() bool {
+	if r.R.Floored && (r.Op == token.LSS || r.Op == token.GEQ) {
+		return false
+	}
+	if r.L.Floored && (r.Op == token.GTR || r.Op == token.LEQ) {
+		return false
+	}
+	return true
+}
+
 func (r Rel) Canon(left, right string) (token.Token, *big.Rat, bool) {
 	if !r.OK {
 		return token.ILLEGAL, nil, false
